@@ -1020,9 +1020,13 @@ namespace cds { namespace intrusive {
                         m_Stat.onEraseRetry();
                         continue;
                     }
+
+                    // The functor must be called inside the read-side critical section:
+                    // if the node has been physically unlinked by a helping thread, that thread
+                    // retires the node and it may be disposed as soon as we leave the section
+                    assert( pDel );
+                    f( *node_traits::to_value_ptr( pDel ));
                 }
-                assert( pDel );
-                f( *node_traits::to_value_ptr( pDel ));
                 --m_ItemCounter;
                 m_Stat.onEraseSuccess();
                 return true;
